@@ -23,6 +23,7 @@ type stampWorld struct {
 	atPort []*wire.UDPEndpoint // per UA: socket on ua-ip:5099 (received-IP + sent-by port)
 	decoyU []*wire.UDPEndpoint // decoy addresses named in Via sent-by / spoofed received
 	decoyT []*wire.TCPListener
+	joinedAnswers, foreignAnswers int
 }
 
 const decoyPort = 5099
@@ -179,6 +180,8 @@ func scenarioStamp() int {
 		run.Observe("answers_after_more_than_a_minute_back_at_the_source", slowOK)
 	}
 	run.Observe("requests_stamped_correctly_in_concurrent_bursts", burstStamped)
+	run.Observe("answers_with_all_via_entries_in_one_line", w.joinedAnswers)
+	run.Observe("answers_arriving_from_another_element_than_the_backend", w.foreignAnswers)
 	run.Observe("requests_seen_stamped", stamped)
 	run.Observe("requests_seen_untouched", untouched)
 	run.Observe("responses_back_at_true_source", back)
@@ -430,7 +433,37 @@ func stampCase(run *ev.Run, w *stampWorld, g *sip.Gen, i int, prop string, stamp
 		}
 	}
 	resp.Headers = append(resp.Headers, sip.Header{Name: "Content-Length", Value: "0"})
-	if atBackend.Proto == "udp" {
+	if g.R.Intn(2) == 0 {
+		// the answering element lays the Via list out its own way: all entries in one header line
+		// (the proxy's own entry and the sender's side by side)
+		var rest []sip.Header
+		placed := false
+		for _, h := range resp.Headers {
+			if sip.Canon(h.Name) == "via" {
+				if !placed {
+					placed = true
+					rest = append(rest, sip.Header{Name: []string{"Via", "v", "VIA"}[g.R.Intn(3)], Value: strings.Join(outV, []string{",", ", ", " , "}[g.R.Intn(3)])})
+				}
+				continue
+			}
+			rest = append(rest, h)
+		}
+		resp.Headers = rest
+		w.joinedAnswers++
+	}
+	if atBackend.Proto == "udp" && g.R.Intn(3) == 0 {
+		// the answer reaches the proxy from another element than the backend it went to (a
+		// response is passed on by its Via list, wherever it comes from)
+		var from *wire.UDPEndpoint
+		for _, e := range w.Hops[g.R.Intn(len(w.Hops))].UDP {
+			from = e
+			break
+		}
+		if from != nil {
+			from.Send(fmt.Sprintf("%s:%d", sv.IP, sv.UDP), resp.Bytes(), id)
+			w.foreignAnswers++
+		}
+	} else if atBackend.Proto == "udp" {
 		for _, e := range sv.BeUDP {
 			if e.Name == atBackend.Ep {
 				e.Send(fmt.Sprintf("%s:%d", sv.IP, sv.UDP), resp.Bytes(), id)
